@@ -46,7 +46,7 @@ TIMEOUT_CASE = 600
 
 def plan(tier, seed):
     n = 96 if tier == "quick" else 2400
-    kinds = ["volume", "volume", "quad-active", "quad-active", "quad-interior", "quad-inactive", "scale-mix", "feasibility"]
+    kinds = ["volume", "volume", "quad-active", "quad-active", "quad-interior", "quad-inactive", "scale-mix", "feasibility", "epigraph"]
     return [{"kind": kinds[i % len(kinds)], "i": i} for i in range(n)]
 
 
@@ -109,6 +109,32 @@ def make_problem(kind, rng):
             xs = np.clip(np.sqrt(c / lam), lo, hi)
             a, b = (lam, b) if xs.sum() > vmax else (a, lam)
         P.update(lo=lo, hi=hi, funs=[fobj, g1], xopt=xs, x0=np.clip(np.full(n, V) * hi, lo, hi), cls="A", scale_obj=use_scaling)
+        return P
+    if kind == "epigraph":
+        # the bound (min-max) formulation  minimise t  s.t.  q_i(x) - t <= 0 : the objective *is* one of the design variables
+        from scipy.optimize import minimize
+        nx = int(rng.integers(1, 5))
+        sizes = [nx, 1]
+        scalar = [False, bool(rng.random() < 0.5)]
+        n = nx + 1
+        P.update(nsig=2, sizes=sizes, scalar=scalar, n=n)
+        qs = []
+        for _ in range(int(rng.integers(2, 4))):
+            qs.append((rng.uniform(0.5, 2.0, nx), rng.uniform(0.0, 1.0, nx), float(rng.uniform(0.0, 0.3))))
+
+        def q(i, x):
+            c, a, b = qs[i]
+            return float(np.sum(c * (x - a) ** 2) + b), 2 * c * (x - a)
+        funs = [lambda z: (float(z[-1]), np.concatenate([np.zeros(nx), [1.0]]))]
+        for i in range(len(qs)):
+            funs.append(lambda z, i=i: (q(i, z[:nx])[0] - float(z[-1]), np.concatenate([q(i, z[:nx])[1], [-1.0]])))
+        T = max(q(i, np.full(nx, 0.5))[0] for i in range(len(qs))) + 1.5
+        lo, hi = np.zeros(n), np.concatenate([np.ones(nx), [T]])
+        z0 = np.concatenate([np.full(nx, 0.5), [T - 1.0]])
+        r = minimize(lambda z: z[-1], z0, jac=lambda z: np.concatenate([np.zeros(nx), [1.0]]), bounds=list(zip(lo, hi)),
+                     constraints=[dict(type="ineq", fun=lambda z, f=f: -f(z)[0], jac=lambda z, f=f: -f(z)[1]) for f in funs[1:]],
+                     method="SLSQP", options=dict(ftol=1e-15, maxiter=1000))
+        P.update(lo=lo, hi=hi, funs=funs, xopt=r.x if r.success else None, x0=z0, cls="A", scale_obj=False, fixed_bounds=True, epigraph=True)
         return P
     if kind == "feasibility":
         # a pure feasibility problem: constant objective (zero gradient, bit-identical value in every iteration), started infeasible;
@@ -296,6 +322,13 @@ def run_case(case, ctx):
             sigs.append(pym.Signal(f"v{len(sigs)}", int(x0[k]) if sc else x0[k:k + sz].astype(int)))
             k += sz
             continue
+        if not sc and rng.random() < 0.15:
+            # a start design stored in single precision: bounds and move limits are those the user gave (doubles), not their float32 images
+            sigs.append(pym.Signal(f"v{len(sigs)}", x0[k:k + sz].astype(np.float32)))
+            x0[k:k + sz] = x0[k:k + sz].astype(np.float32).astype(float)
+            ctx.count("single_precision_starts")
+            k += sz
+            continue
         if not sc and rng.random() < 0.3:     # a variable signal with a pre-allocated sensitivity (reset() zeroes it in place)
             sigs.append(pym.Signal(f"v{len(sigs)}", x0[k:k + sz].copy(), sensitivity=np.zeros(sz)))
             ctx.count("preallocated_variable_signals")
@@ -303,9 +336,14 @@ def run_case(case, ctx):
             sigs.append(pym.Signal(f"v{len(sigs)}", float(x0[k]) if sc else x0[k:k + sz].copy()))
         k += sz
     mods = [Sep(sigs, pym.Signal(f"g{j}"), f, indep=P.get("indep", {}).get(j, ())) for j, f in enumerate(P["funs"])]
+    if P.get("epigraph"):
+        mods = mods[1:]          # the objective is the last design-variable signal itself, no module computes it
     if P.get("indep"):
         ctx.count("responses_independent_of_a_variable_signal", len(P["indep"]))
     resp = [m.sig_out[0] for m in mods]
+    if P.get("epigraph"):
+        resp = [sigs[-1]] + resp
+        ctx.count("runs_whose_objective_is_a_design_variable")
     objscale = 1.0
     if P["scale_obj"]:
         sc_mod = pym.Scaling(resp[0], pym.Signal("f_scaled"), scaling=10.0)
@@ -438,7 +476,9 @@ def run_case(case, ctx):
     d0 = float(np.max(np.abs(X[0] - xopt) / rngx))
     dist = float(np.max(np.abs(final - xopt) / rngx))
     converged_early = len(log) < maxit
-    if relaxed:
+    if relaxed or P.get("epigraph"):
+        # (bound formulation: every constraint is active at the optimum and MMA creeps along the constraint boundaries - measured on the
+        # unchanged tree: 3e-4 constraint violation after 60 iterations; only the per-iteration clauses are judged for these runs)
         pass
     elif len(log) >= 12 or converged_early:
         if gfin > 1e-5:
@@ -447,7 +487,7 @@ def run_case(case, ctx):
             ctx.count("feasibility_runs_judged")
         elif len(log) >= 30 or converged_early:
             limit = 2e-3 if P["cls"] == "A" else 3e-2
-            if P["kind"] == "scale-mix":
+            if P["kind"] in ("scale-mix", "epigraph"):
                 # coupled quadratic part: a first-order method may be slow, so a run cut off by maxit only has to have made progress;
                 # a run that stopped by itself claims convergence (remaining error ~ step*rho/(1-rho): 1e-2 is generous for tolx=1e-4)
                 limit = (1e-2 if tolx > 1e-5 else 2e-3) if converged_early else 0.9 * d0
